@@ -886,6 +886,7 @@ pub fn run(ctx: &mut Ctx) {
     super::replay_corpus(ctx, replay);
     ctx.run_suite(&DialogueSuite);
     ctx.run_suite(&UdpSuite);
+    ctx.run_suite(&super::c15fwd::ForwarderSuite);
     ctx.assume("zero-length user names / passwords and relayed datagrams with a domain-name source (ATYP 3) are don't-care");
     ctx.assume("the mapping of reply codes 3/4/6 to the unreachable / timed-out tunnel errors lives in Socks5Forwarder::TcpConnector::connect, which dials a real TCP socket; it is covered by the end-to-end suite when present");
 }
@@ -894,6 +895,7 @@ pub fn replay(ctx: &mut Ctx, suite: &str, case: &Value) -> bool {
     match suite {
         "dialogue" => ctx.replay_suite(&DialogueSuite, case),
         "udp-relay-header" => ctx.replay_suite(&UdpSuite, case),
+        "socks5-forwarder-end-to-end" => ctx.replay_suite(&super::c15fwd::ForwarderSuite, case),
         _ => false,
     }
 }
